@@ -4,6 +4,10 @@ Atoms are `str`; quoted strings are `Q` (a `str` subclass); lists are Python lis
 """
 
 
+import sys
+sys.setrecursionlimit(100000)
+
+
 class Q(str):
     """A quoted string."""
 
